@@ -253,6 +253,9 @@ CHECKS = {
     ),
 }
 
+FAMILIES_NOTE = (" The explored space was enlarged after five rounds of independently seeded "
+                 "changes; the added families are listed in DESIGN.md 9.3b and counted per family in the evidence.")
+
 PENDING_REASON = "check under construction in this round; not claimed until both tiers have run to completion on the unchanged tree"
 
 
@@ -270,7 +273,7 @@ def main():
             "evidence_file": "evidence/%s.json" % pid,
             "replay_cmd_template": "./check %s --replay {path}" % pid,
             "engine": "vf-explorer",
-            "level_claimed": {"category": c["level"], "text": c["text"], "design_ref": c["design"]},
+            "level_claimed": {"category": c["level"], "text": c["text"] + FAMILIES_NOTE, "design_ref": c["design"] + ", 9.3b"},
             "level_note": c["note"] + " " + ASSUME_COMMON,
             "technique": c["technique"],
         })
@@ -297,7 +300,7 @@ def main():
         }],
         "checks": checks,
         "not_applicable": na,
-        "notes": "See DESIGN.md. Known findings: known_findings.jsonl. Replays: replays/<id>/*.json.",
+        "notes": "See DESIGN.md (section 9 = implementation log: repairs, corrected false alarms, seeded changes and which checks catch them). Known findings: known_findings.jsonl. Replays: replays/<id>/*.json. Seeded changes: seeded/<id>/; python3 -m vf.seedtest <id> runs checks against one in a scratch worktree.",
     }
     with open(os.path.join(VERIF, "MANIFEST.json"), "w") as f:
         json.dump(m, f, indent=1)
